@@ -53,7 +53,7 @@ CHECKS = {
         "level": "exploration", "lanes": [("hist", hist("C02")), SMALL("C02")],
         "rule": HRULE + SMALLRULE,
         "require": ["smallscope:sequences", "op:withdraw:ok", "op:fee_withdraw:ok", "op:hook:receive_unstaked_tokens:ok", "op:recover_pending_ibc_transfers:ok", "op:relay:err:ok", "op:relay:timeout:ok"],
-        "assumptions": [SIM, HONEST, ZERO, "fees swept from ownerless stake are not backed by contract-held tokens and are excluded from the fee entitlement"],
+        "assumptions": [SIM, HONEST, ZERO, "fees swept from ownerless stake are not backed by contract-held tokens and are excluded from the fee entitlement", "when the staking contract is configured as its own treasury, the fees it pays to itself are held for that treasury and are booked like donations"],
     },
     "C03": {
         "level": "exploration", "builds": ["default", "miniwasm"], "all_lanes_both": True,
